@@ -229,10 +229,12 @@ def load_known():
 
 
 def write_evidence(prop, tier, level, coverage, wall, violations, assumptions):
-    os.makedirs(os.path.join(VERIF, "evidence"), exist_ok=True)
+    # extension engines (X..: behaviour beyond the listed properties) keep their evidence apart
+    sub = os.path.join("evidence", "ext") if prop.startswith("X") else "evidence"
+    os.makedirs(os.path.join(VERIF, sub), exist_ok=True)
     ev = {"property_id": prop, "tier": tier, "seed": seed(), "level": level, "coverage": coverage,
           "assumptions": assumptions, "wall_s": round(wall, 2), "violations": violations}
-    with open(os.path.join(VERIF, "evidence", prop + ".json"), "w") as f:
+    with open(os.path.join(VERIF, sub, prop + ".json"), "w") as f:
         json.dump(ev, f, indent=1)
 
 
